@@ -1156,6 +1156,85 @@ def gen_op_live(rng, prs):
     return op
 
 
+# ============================================================================ ordered pairs of operations on ONE object
+PAIR_SLIDE = 3      # index of the slide the setup operations populate (the generated start deck has three slides)
+
+
+def pair_setup_ops():
+    """explicit operations that give every selector a target on one fresh blank slide of the generated deck"""
+    bar = {"type": "BAR_CLUSTERED", "ncat": 3, "nser": 2, "cats": "str", "vals": [[1, 2.5, None], [3, 0, 7]], "names": ["S0", "S1"],
+           "number_format": None, "ood": False}
+    line = dict(bar, type="LINE_MARKERS")
+    bub = dict(bar, type="BUBBLE")
+    xy = dict(bar, type="XY_SCATTER")
+    geom = [914400, 914400, 1828800, 914400]
+    S = PAIR_SLIDE
+    st = lambda sel, attr, val, k=0: {"kind": "set", "s": S, "k": k, "sel": sel, "attr": attr, "val": val}      # noqa: E731
+    cl = lambda sel, meth, args, k=0: {"kind": "call", "s": S, "k": k, "sel": sel, "meth": meth, "args": args}  # noqa: E731
+    ops = [{"kind": "add_slide", "s": 0, "k": 0, "layout": 6}]
+    ops += [{"kind": "add_shape", "s": S, "k": 0, "args": [enc_enum(_enums()[3].MSO_SHAPE.ROUNDED_RECTANGLE)] + geom},
+            {"kind": "add_textbox", "s": S, "k": 0, "args": geom},
+            {"kind": "add_picture", "s": S, "k": 0, "img": "png", "args": [0, 0]},
+            {"kind": "add_connector", "s": S, "k": 0, "args": [enc_enum(_enums()[3].MSO_CONNECTOR.STRAIGHT), 0, 0, 914400, 914400]},
+            {"kind": "add_table", "s": S, "k": 0, "args": [2, 2] + geom},
+            {"kind": "add_chart", "s": S, "k": 0, "data": bar, "args": geom},
+            {"kind": "add_chart", "s": S, "k": 0, "data": line, "args": geom},
+            {"kind": "add_chart", "s": S, "k": 0, "data": bub, "args": geom},
+            {"kind": "add_chart", "s": S, "k": 0, "data": xy, "args": geom}]
+    for k in range(4):
+        ops += [st("chart", "has_legend", True, k), st("chart", "has_title", True, k)]
+    for k in range(8):
+        ops += [st("axis", "has_title", True, k), st("plot", "has_data_labels", True, k)]
+    ops += [cl("paragraph", "add_run", [], k) for k in range(3)]
+    ops += [cl("fill", "gradient", [], 0), st("hyperlink", "address", "http://example.com/", 0)]
+    return ops
+
+
+def euler_pairs(n):
+    """a closed walk over n nodes that uses every ordered pair (i, j), loops included, exactly once (Hierholzer)"""
+    nxt = [0] * n
+    stack, out = [0], []
+    while stack:
+        v = stack[-1]
+        if nxt[v] < n:
+            w = nxt[v]
+            nxt[v] += 1
+            stack.append(w)
+        else:
+            out.append(stack.pop())
+    return out[::-1]
+
+
+def pair_ops(sel, k, rng):
+    """setup + one walk in which every ordered pair of the selector's operations (setters and calls) is applied
+    back to back to the SAME object (candidate k of the selector on the populated slide)"""
+    table = [("set", t) for t in SETTERS_T if t[0] == sel] + [("call", t) for t in CALLS_T if t[0] == sel]
+    ops = pair_setup_ops()
+    if not table:
+        return ops
+    for i in euler_pairs(len(table)):
+        kind, t = table[i]
+        if kind == "set":
+            ops.append({"kind": "set", "s": PAIR_SLIDE, "k": k, "sel": sel, "attr": t[1], "val": t[2](rng)})
+        else:
+            ops.append({"kind": "call", "s": PAIR_SLIDE, "k": k, "sel": sel, "meth": t[1], "args": t[2](rng)})
+    return ops
+
+
+def pair_jobs(start_idx, seed, rounds, cands):
+    init_tables()
+    sels = sorted({t[0] for t in SETTERS_T} | {t[0] for t in CALLS_T})
+    jobs = []
+    for rd in range(rounds):
+        for sel in sels:
+            n = len([t for t in SETTERS_T if t[0] == sel]) + len([t for t in CALLS_T if t[0] == sel])
+            if n < 2:
+                continue
+            for k in range(cands):
+                jobs.append((start_idx + len(jobs), GENERATED, seed * 1000003 + 7919 * (start_idx + len(jobs)), ("pairs", sel, k)))
+    return jobs
+
+
 # ============================================================================ mutation tracing
 class Tracer:
     """wraps the tree-mutating methods of BaseOxmlElement and records, per call coming from
@@ -1394,7 +1473,10 @@ def _worker(job):
     rng = random.Random(seed)
     rec = {}
     try:
-        r = run_sequence(V, snap, deck, None, rng, nops, record=rec)
+        if isinstance(nops, tuple):
+            r = run_sequence(V, snap, deck, pair_ops(nops[1], nops[2], rng), record=rec)
+        else:
+            r = run_sequence(V, snap, deck, None, rng, nops, record=rec)
     except Exception as e:  # noqa
         return {"idx": idx, "deck": deck, "crash": traceback.format_exc()[-1500:]}
     found = []
@@ -1699,6 +1781,8 @@ def jobs_for(tier, seed):
         else:
             deck = default if i % 4 == 0 else others[i % len(others)]
         jobs.append((i, deck, seed * 1000003 + i, nops if i % 7 else nops * 2))
+    # every ordered pair of operations of one selector, back to back on the same object
+    jobs += pair_jobs(len(jobs), seed, 2 if tier == "quick" else 8, 2 if tier == "quick" else 4)
     return jobs
 
 
@@ -1870,7 +1954,7 @@ def run(ck, tier, rng):
     return ck.finish(
         rule="random public-API operation sequences (%d sequences x 10 or 20 operations, generated against the live state so that most operations have a target; "
              "default template every 3rd/4th sequence, every corpus deck round-robin, every 8th sequence a generated start deck whose slides and layouts carry p:bg/p:bgRef; "
-             "background operations on slide, layout and master have their own share of the alphabet); after EVERY operation every XML part is serialised and validated "
+             "background operations on slide, layout and master have their own share of the alphabet; plus, per kind of object, walks on a populated slide in which every ORDERED PAIR of that kind's setters and methods is applied back to back to the same object); after EVERY operation every XML part is serialised and validated "
              "(libxml2 oracle; Coq validator for correspondence), and the saved package at the end of every sequence; non-trivial = the operation had a target "
              "(was executed or rejected)" % nseq,
         trusted_base=TB, assumptions=ASSUME,
